@@ -49,6 +49,22 @@ def run(ck):
             continue
         cases.append((t, p))
         ck.count('pattern length %s' % ('<=63' if len(p) <= 63 else '<=255' if len(p) <= 255 else '<=1024' if len(p) <= 1024 else '>1024'))
+    # dense family at the word boundaries of the single-word kernels: the score bit is bit (m-1) mod 64 of lane (m-1) div 64,
+    # so m = 64k and m = 64k+1 exercise a shift count of 63 resp. 0 in every lane; an error there shows on a few percent of
+    # random pairs only, hence many pairs per length (small alphabets make the delta vectors dense)
+    for m in (1, 2, 63, 64, 65, 66, 127, 128, 129, 130, 191, 192, 193, 194, 254, 255):
+        for k in range(36 if ck.tier == 'quick' else 200):
+            sigma = rng.choice([2, 3, 4, 4, 13])
+            n = m + rng.choice([0, 1, 7, 64, 146])
+            t = [rng.below(sigma) for _ in range(n)]
+            if k % 3 == 0:
+                p = [rng.below(sigma) for _ in range(m)]
+            else:
+                a = rng.below(n - m + 1); p = list(t[a:a + m])
+                for _ in range(rng.range(1, max(2, m // 5))):
+                    p[rng.below(m)] = rng.below(sigma)
+            cases.append((t, p))
+        ck.count('dense word-boundary family, pattern length %d' % m)
     lines = ['bpm %s %s' % (hx(t), hx(p)) for t, p in cases]
     model = ck.model()
     mod = ck.run_lines_sharded(model, lines, shards=14, timeout=3000)
